@@ -25,7 +25,7 @@ REGION_ALTS = {"body": [2, 3, "ov", "ov+2", 9], "mbb": [0, 1, "ov", 8], "vbb": [
 
 def bounds(tier):
     return dict(enzymes="all distinct 5'-overhang single-cut geometries with an unambiguous 5-7 nt site (computed at run time)",
-                k=[1, 2, 3], schemes=[0, 1], spelling="each participant in lower case in turn, and all (bound 1)", junctions=["plain", "palindromic@0", "palindromic@last"],
+                k=[1, 2, 3], schemes=[0, 1], annotations="every participant carrying features of every location flavour (exact, <a..>b, within, between, one-of, order, join across the origin, zero-length, remote reference) and qualifier shape: alone and x every rotation of one plasmid", spelling="each participant in lower case in turn, and all (bound 1)", junctions=["plain", "palindromic@0", "palindromic@last"],
                 region_alternatives=REGION_ALTS, deviation_bound=2,
                 pairs=("(region length, rotation of its plasmid), (permutation, rotation of one plasmid)" if tier == "quick"
                        else "all pairs of axes; rotation x rotation over structure-window rotations"),
@@ -40,7 +40,7 @@ def bounds(tier):
 def goals(tier):
     return ["every-enzyme:" + n for n, _ in gen.enzymes()] + ["k=3", "origin-in-site", "origin-in-filler", "origin-in-overhang", "origin-in-target",
             "origin-in-backbone", "non-identity-permutation", "palindromic-junction", "min-body", "empty-backbone",
-            "empty-placeholder", "content-exhaustive", "every-overhang-word", "lower-case-participant", "awkward-content", "large-plasmid", "long-chain"]
+            "empty-placeholder", "content-exhaustive", "every-overhang-word", "lower-case-participant", "awkward-content", "large-plasmid", "long-chain", "annotated-participants"]
 
 
 def base_points(tier):
@@ -206,6 +206,12 @@ def run_unit(unit, st, tier):
     for low in [[j] for j in range(k + 1)] + [list(range(k + 1))]:
         st.goal("lower-case-participant")
         one(dict(base, lower=low), True)
+    # bound 1: annotated participants (features of every unusual but legal shape); bound 2: annotated x rotation of one plasmid
+    one(dict(base, decor=1), True, outcome="product-or-violation/annotated")
+    st.goal("annotated-participants")
+    for which in range(k + 1):
+        for s2 in rotations_of(base, which, goals=False):
+            one(dict(s2, decor=1), True, outcome="product-or-violation/annotated")
     # bound 1: region lengths (and bound 2 with the rotation of the plasmid holding the region)
     for reg in regions(k):
         kind = reg.rstrip("0123456789")
